@@ -2,6 +2,7 @@ package main
 
 import (
 	"fmt"
+	"runtime"
 )
 
 // The cooperative scheduler (DESIGN.md §2.3): tasks are real goroutines,
@@ -72,6 +73,26 @@ type simTask struct {
 	cheap     bool // the running operation asked for the per-yield invariants to be skipped
 	prio      int
 	quantum   int
+	root      int  // the top-level task this one descends from (itself for a top-level task)
+	child     bool // started by a `go` statement of the package under test
+	adopted   bool // the harness' own goroutine, adopted as task 0 of an ambient scheduler
+	killed    bool // left blocked when its starter was done: unwound with runtime.Goexit
+	nspawned  int  // goroutines started so far by this task and its descendants (kept in the top-level task)
+	ordinal   int  // position among the goroutines of its top-level task
+	ipol      *iterPolicy
+}
+
+// childPol is the map-iteration policy of a goroutine started by the package: the kind of its
+// top-level task's policy with a stream of its own, so that what the goroutines consume - which
+// may depend on the schedule - does not shift the orders their starter sees afterwards.
+func (t *simTask) childPol(root *iterPolicy) *iterPolicy {
+	if t.ipol == nil {
+		cp := *root
+		cp.counter = 0
+		cp.Seed = splitmix(root.Seed ^ uint64(t.ordinal)*0xD1B54A32D192ED03)
+		t.ipol = &cp
+	}
+	return t.ipol
 }
 
 type sched struct {
@@ -92,6 +113,19 @@ type sched struct {
 	preemptedSites map[int]bool
 	preIdx         map[int]int
 	chgIdx         map[int]bool
+
+	// goroutines of the package under test (verifsim.Go) are tasks like any other
+	idle           int  // Blocked() calls since anybody last made progress
+	epoch          int  // bumped when a deadlock is declared: every task that was blocked gives up
+	ambient        bool // no C17 run in progress: task 0 is the harness goroutine itself
+	goPanics       []string
+	childStepLimit bool
+	killing        bool
+	quiescing      bool // ambient: the guarded call has returned, the harness lets the goroutines run on
+	oldYield       func(int)
+	oldBlocked     func()
+	spawned        int
+	calls          int
 }
 
 func newSched(c *Ctx, pol *schedPolicy) *sched {
@@ -109,6 +143,7 @@ func newSched(c *Ctx, pol *schedPolicy) *sched {
 
 func (s *sched) add(body func()) *simTask {
 	t := &simTask{id: len(s.tasks), resume: make(chan struct{}), body: body}
+	t.root = t.id
 	if s.pol.Kind == 1 && t.id < len(s.pol.Prio) {
 		t.prio = s.pol.Prio[t.id]
 	}
@@ -126,36 +161,213 @@ func (s *sched) runnable() []*simTask {
 	return r
 }
 
+// start parks a new goroutine for t; it runs t.body when it is first given the turn.
+func (s *sched) start(t *simTask) {
+	go func() {
+		defer func() {
+			// (also reached through runtime.Goexit when the task is unwound)
+			t.done = true
+			s.idle = 0
+			s.leave(t)
+		}()
+		<-t.resume
+		if t.killed {
+			return
+		}
+		t.started = true
+		s.runBody(t)
+	}()
+}
+
+func (s *sched) runBody(t *simTask) {
+	if t.child {
+		// a panic in a goroutine of the package under test would end the process: recorded, reported
+		// by whoever guards the call that started it
+		defer func() {
+			if r := recover(); r != nil {
+				if _, ok := r.(stepLimit); ok {
+					s.childStepLimit = true
+					s.c.childStepLimit = true
+				} else {
+					s.c.goPanics = append(s.c.goPanics, fmt.Sprintf("%v", r))
+				}
+				s.c.Event("goroutine %d ended by panic", t.id)
+			}
+		}()
+	}
+	t.body()
+}
+
+// leave hands the turn over when t has finished, or reports completion.
+func (s *sched) leave(t *simTask) {
+	r := s.runnable()
+	if s.killing {
+		// leftover goroutines are unwound one after another
+		for _, x := range r {
+			if x.killed {
+				s.cur = x
+				x.resume <- struct{}{}
+				return
+			}
+		}
+		s.killing = false
+		if s.ambient {
+			s.cur = s.tasks[0]
+			s.tasks[0].resume <- struct{}{}
+			return
+		}
+		s.cur = nil
+		close(s.finished)
+		return
+	}
+	if len(r) == 0 {
+		s.cur = nil
+		close(s.finished)
+		return
+	}
+	next := s.choose(r, t, true)
+	s.note(t, next, -1)
+	s.cur = next
+	next.resume <- struct{}{}
+}
+
+// spawn adds a goroutine started by the package under test (verifsim.Go): it is parked until the
+// policy, a blocked task or a finished task gives it the turn.
+func (s *sched) spawn(body func()) {
+	t := s.add(body)
+	t.child = true
+	if s.cur != nil {
+		t.root = s.cur.root
+		t.prio = s.cur.prio
+		rt := s.tasks[t.root]
+		rt.nspawned++
+		t.ordinal = rt.nspawned
+	}
+	s.idle = 0
+	s.spawned++
+	s.c.C["goroutines_started_by_package"]++
+	s.c.Event("go task=%d", t.id)
+	s.start(t)
+}
+
 // run executes all tasks to completion under the policy.
 func (s *sched) run() {
 	for _, t := range s.tasks {
-		t := t
-		go func() {
-			<-t.resume
-			t.started = true
-			t.body()
-			t.done = true
-			// hand over to somebody else, or report completion
-			r := s.runnable()
-			if len(r) == 0 {
-				s.cur = nil
-				close(s.finished)
-				return
-			}
-			next := s.choose(r, t, true)
-			s.note(t, next, -1)
-			s.cur = next
-			next.resume <- struct{}{}
-		}()
+		s.start(t)
 	}
 	first := s.tasks[s.pol.First%len(s.tasks)]
 	s.cur = first
 	old, oldB := s.c.yieldFn, s.c.blockedFn
 	s.c.yieldFn = s.yield
 	s.c.blockedFn = s.blocked
+	s.c.sch = s
 	first.resume <- struct{}{}
 	<-s.finished
+	s.c.sch = nil
 	s.c.yieldFn, s.c.blockedFn = old, oldB
+}
+
+// newAmbient makes the calling goroutine task 0 of a scheduler of its own: used when the package
+// under test starts a goroutine outside a C17 run.  Its policy is a function of the execution so
+// far (event-log hash and step count), hence of the tape.
+func newAmbient(c *Ctx) *sched {
+	seed := splitmix(uint64(c.ev) ^ uint64(c.Steps)*0x9E3779B97F4A7C15 ^ 0x5eed)
+	pol := &schedPolicy{Kind: 2, Seed: seed, PerMille: []int{0, 5, 60, 250, 600}[int(seed>>40)%5]}
+	s := newSched(c, pol)
+	s.ambient = true
+	t := s.add(nil)
+	t.adopted, t.started = true, true
+	s.cur = t
+	s.oldYield, s.oldBlocked = c.yieldFn, c.blockedFn
+	old := c.yieldFn
+	c.yieldFn = func(site int) {
+		if old != nil && s.cur == t {
+			old(site)
+		}
+		s.yield(site)
+	}
+	c.blockedFn = s.blocked
+	c.Event("ambient scheduler %s", pol.String())
+	return s
+}
+
+// quiesce is called by the harness goroutine when a guarded call has returned (or panicked): the
+// goroutines it started run on until each has finished or waits for something.  Those that wait
+// stay parked - a pool of workers may serve the next call - until the package state is reset or
+// the case ends (killAll).
+func (s *sched) quiesce() {
+	main := s.tasks[0]
+	s.quiescing = true
+	for {
+		live := 0
+		for _, t := range s.tasks[1:] {
+			if !t.done {
+				live++
+			}
+		}
+		if live == 0 || s.idle > 2*(live+1)+2 || s.c.childStepLimit {
+			break
+		}
+		s.idle++
+		s.handoff(main)
+	}
+	s.quiescing = false
+	s.idle = 0
+}
+
+// markLeftovers marks every live goroutine of the package for unwinding and returns the first.
+func (s *sched) markLeftovers() (first *simTask) {
+	for _, t := range s.tasks {
+		if !t.done && t.child {
+			t.killed = true
+			s.c.C["goroutines_unwound_while_waiting"]++
+			if first == nil {
+				first = t
+			}
+		}
+	}
+	return first
+}
+
+// killAll unwinds (runtime.Goexit) the goroutines that are still parked and retires the ambient
+// scheduler.  Called by the harness goroutine.
+func (s *sched) killAll() {
+	if first := s.markLeftovers(); first != nil {
+		s.killing = true
+		s.cur = first
+		first.resume <- struct{}{}
+		<-s.tasks[0].resume
+	}
+	s.cur = nil
+	s.c.yieldFn, s.c.blockedFn = s.oldYield, s.oldBlocked
+	s.c.C["context_switches_among_package_goroutines"] += int64(s.switches)
+	s.c.amb = nil
+}
+
+// handoff gives the turn to the next live task after t in cyclic order and waits to get it back.
+func (s *sched) handoff(t *simTask) {
+	r := s.runnable()
+	var next *simTask
+	for _, x := range r {
+		if x.id > t.id {
+			next = x
+			break
+		}
+	}
+	if next == nil && len(r) > 0 && r[0] != t {
+		next = r[0]
+	}
+	if next == nil {
+		// nobody else can run: what t waits for can never happen
+		panic(stepLimit{})
+	}
+	s.note(t, next, -2)
+	s.cur = next
+	next.resume <- struct{}{}
+	<-t.resume
+	if t.killed {
+		runtime.Goexit()
+	}
 }
 
 func (s *sched) note(from, to *simTask, site int) {
@@ -201,10 +413,11 @@ func (s *sched) choose(r []*simTask, cur *simTask, mustLeave bool) *simTask {
 // yield is called (through the Yield hook) by the running task.
 func (s *sched) yield(site int) {
 	t := s.cur
-	if t == nil {
+	if t == nil || t.killed {
 		return
 	}
 	s.step++
+	s.idle = 0
 	if s.invariant != nil && !s.stop && !t.cheap {
 		if v := s.invariant(site); v != nil {
 			s.viol = v
@@ -268,6 +481,9 @@ func (s *sched) yield(site int) {
 	s.cur = next
 	next.resume <- struct{}{}
 	<-t.resume
+	if t.killed {
+		runtime.Goexit()
+	}
 }
 
 // blocked is called by the running task when it cannot take a lock (or waits
@@ -278,24 +494,43 @@ func (s *sched) blocked() {
 	if t == nil {
 		return
 	}
+	if t.killed {
+		runtime.Goexit()
+	}
 	s.step++
+	s.idle++
 	r := s.runnable()
-	var next *simTask
-	for _, x := range r {
-		if x.id > t.id {
-			next = x
-			break
+	if s.idle > 2*len(r)+2 && !s.quiescing {
+		// every live task has had the turn since anybody last made progress and all of them are
+		// still waiting
+		callers := 0
+		for _, x := range r {
+			if !x.child {
+				callers++
+			}
 		}
-	}
-	if next == nil && len(r) > 0 && r[0] != t {
-		next = r[0]
-	}
-	if next == nil {
-		// nobody else can run: the lock can never be released
+		if callers == 0 {
+			// only goroutines of the package are left, all waiting (workers nobody will feed any
+			// more): they are unwound, the run is complete
+			s.c.Event("goroutines left waiting at step %d", s.step)
+			s.markLeftovers()
+			s.killing = true
+			runtime.Goexit()
+		}
+		// a caller waits, too: a deadlock.  Everybody who waits gives up (as a step-limit panic).
+		s.epoch++
+		s.idle = 0
+		s.c.Event("deadlock declared at step %d", s.step)
+		s.c.C["deadlocks_declared"]++
+		s.c.deadlocked = true
 		panic(stepLimit{})
 	}
-	s.note(t, next, -2)
-	s.cur = next
-	next.resume <- struct{}{}
-	<-t.resume
+	ep := s.epoch
+	s.handoff(t)
+	if s.epoch != ep {
+		panic(stepLimit{})
+	}
 }
+
+// progress is called when a task got past a blocking point.
+func (s *sched) progress() { s.idle = 0 }
